@@ -112,6 +112,10 @@ int main(int argc, char** argv)
             catch (const std::exception&)
             {
             }
+            // (the legacy layout is told by m.db alone: a directory whose companion p.db is missing - m.db copied alone,
+            //  written by other software - still holds a library of the stored version)
+            if (c.value("nop", false))
+                fs::remove(dir + "/p.db");
         }
         if (db2 && db2_empty)
         {
